@@ -63,7 +63,7 @@ def fam_events(rng, n, thorough=False):
         keyed = rng.random() < 0.3
         c = conf(inkey=KEY if keyed else [])
         steps = opens(k)
-        kinds = ["valid", "valid", "valid", "badck", "junk"] + (["badsig", "unsigned"] if keyed else ["v1"])
+        kinds = ["valid", "valid", "valid", "badck", "junk"] + (["badsig", "unsigned", "v1"] if keyed else ["v1"])
         closing_window = rng.random() < 0.4
         slow = rng.random() < 0.4
         nfeed = rng.randint(3, 25)
@@ -128,7 +128,9 @@ def fam_events_gated(rng, n):
             steps.append({"op": "sleep", "ms": rng.randint(1, 8)})
             steps.append({"op": "release", "point": point, "ep": 0})
         steps.append({"op": "wait_closed"})
-        out.append({"name": "events_gated/%s/%d" % (point, i), "conf": c, "endpoints": customs(1), "steps": steps})
+        # half of them on a transport whose queued data stays readable after Close (a pipe-like custom transport)
+        out.append({"name": "events_gated/%s/%d" % (point, i), "conf": c,
+                    "endpoints": [{"kind": "custom", "drain": i % 2 == 0}], "steps": steps})
     return out
 
 
@@ -263,6 +265,21 @@ def fam_close(rng, n):
     out.append({"name": "close/writer_blocked", "conf": conf(), "endpoints": customs(2), "steps": opens(2) + [
         {"op": "twrite_mode", "ep": 0, "mode": "block"}, write(1, "MsgAll", t.next()), write(1, "MsgAll", t.next()),
         {"op": "sleep", "ms": 20}, {"op": "close", "from": "main"}, {"op": "wait_closed"}]})
+    # writer blocked in the transport with more items submitted than the queue holds
+    t = Tags(46500)
+    steps = opens(2) + [{"op": "twrite_mode", "ep": 0, "mode": "block"}]
+    for j in range(75):
+        steps.append(write(1 + j % 2, "MsgAll", t.next()))
+    steps += [{"op": "sleep", "ms": 30}, {"op": "close", "from": "main"}, {"op": "wait_closed"}]
+    out.append({"name": "close/writer_blocked_queue_full", "conf": conf(), "endpoints": customs(2), "steps": steps})
+    # provider holding a freshly accepted / dialled / opened connection that is not yet registered when Close lands
+    for kind in ["tcp_server", "tcp_client", "serial"]:
+        steps = [{"op": "hold_at_start", "point": "prov.newChannel", "ep": 0}]
+        if kind == "tcp_server":
+            steps.append({"op": "peer_connect", "ep": 0, "peer": 1})
+        steps += [{"op": "wait_held", "point": "prov.newChannel", "ep": 0}, {"op": "close", "from": "async"}, {"op": "sleep", "ms": 5},
+                  {"op": "release", "point": "prov.newChannel", "ep": 0}, {"op": "wait_closed"}]
+        out.append({"name": "close/unregistered_connection_%s" % kind, "conf": conf(), "endpoints": [{"kind": kind}], "steps": steps})
     # Close called from inside the event loop
     t = Tags(47000)
     out.append({"name": "close/from_event_loop", "conf": conf(), "endpoints": customs(2), "steps": opens(2) + [
